@@ -48,7 +48,7 @@ Definition p_constant : M node :=
   t <- advance ;;
   c <- tok_coord t ;;
   if kind_in (tk t) tbl_INT_CONST then
-    match int_const_type (tv t) with
+    match int_const_type (kind_eqb (tk t) K_INT_CONST_CHAR) (tv t) with
     | Some ty => ret (mkConstant P ty (tv t) (Some c))
     | None => crash CK_Value
     end
@@ -792,32 +792,32 @@ with p_array_decl_common (fuel: nat) (base_type: node) (co: option coord) : M no
           expect K_RBRACKET ;;;
           ret (mk dim (q ++ [s2l "static"]))
         | None =>
-          tt' <- accept K_TIMES ;;
-          match tt' with
-          | Some tm =>
+          k1 <- peek_kind ;;
+          vla <- (if okind_is k1 K_TIMES then (k2 <- peek_kind_k 2 ;; ret (okind_is k2 K_RBRACKET)) else ret false) ;;
+          if vla then
+            tm <- advance ;;
             expect K_RBRACKET ;;;
             tc <- tcoord tm ;;
             ret (mk (mkN C_ID [VStr (tv tm)] tc) q)
-          | None =>
+          else
             se <- starts_expression P ;;
             dim <- (if se then p_assignment_expression f else ret VNone) ;;
             expect K_RBRACKET ;;;
             ret (mk dim q)
-          end
         end
       else
-        tt' <- accept K_TIMES ;;
-        match tt' with
-        | Some tm =>
+        k1 <- peek_kind ;;
+        vla <- (if okind_is k1 K_TIMES then (k2 <- peek_kind_k 2 ;; ret (okind_is k2 K_RBRACKET)) else ret false) ;;
+        if vla then
+          tm <- advance ;;
           expect K_RBRACKET ;;;
           tc <- tcoord tm ;;
           ret (mk (mkN C_ID [VStr (tv tm)] tc) [])
-        | None =>
+        else
           se <- starts_expression P ;;
           dim <- (if se then p_assignment_expression f else ret VNone) ;;
           expect K_RBRACKET ;;;
           ret (mk dim [])
-        end
     end
   end
 with p_function_decl (fuel: nat) (base_decl: node) : M node :=
@@ -907,7 +907,7 @@ with p_parameter_declaration (fuel: nat) : M node :=
 with p_build_parameter_declaration (fuel: nat) (spec: dspec) (decl: option node) (spec_coord: option coord) : M node :=
   match fuel with O => oof | S f =>
     let ty := s_type P spec in
-    redecl <- (if Nat.ltb 1 (length ty) then
+    redecl <- (if Nat.ltb 1 (length ty) && match last_opt ty with Some t => is_cls P C_IdentifierType t | None => false end then
                  ns <- last_type_names P ty ;;
                  if Nat.eqb (length ns) 1 then (n0 <- first_name P ns ;; is_type_in_scope P n0) else ret false
                else ret false) ;;
